@@ -2,3 +2,4 @@ pub mod cfg;
 pub mod chardef;
 pub mod dic;
 pub mod norm;
+pub mod numeral;
